@@ -239,7 +239,8 @@ def _norm_denorm(fn, prefix, defs, consts):
 def g_spline_linear(repo):
     src = Source(repo, "nflows/transforms/splines/linear.py")
     fn = src.func("linear_spline")
-    store_census(fn, {"pdf": 1, "cdf": 3, "inputs": 2, "outputs": 7, "logabsdet": 4, "bin_idx": 2, "inv_bin_idx": 2})
+    store_census(fn, {"pdf": 1, "cdf": 3, "inputs": 2, "outputs": 7, "logabsdet": 4, "bin_idx": 2, "inv_bin_idx": 2,
+                      "__bare_calls__": 0, "__raises__": 1, "__asserts__": 0})
     defs = domain_guard(fn, "lin")
     mid = _norm_denorm(fn, "lin", defs, src.consts)
     if len(mid) != 1:
@@ -286,7 +287,7 @@ def g_spline_rq(repo):
     src = Source(repo, "nflows/transforms/splines/rational_quadratic.py")
     fn = src.func("rational_quadratic_spline")
     store_census(fn, {"widths": 3, "cumwidths": 5, "derivatives": 1, "heights": 3, "cumheights": 5, "delta": 1, "bin_idx": 2,
-                      "outputs": 2, "logabsdet": 2, "inputs": 0})
+                      "outputs": 2, "logabsdet": 2, "inputs": 0, "__bare_calls__": 0, "__raises__": 3, "__asserts__": 1})
     st = if_on(fn, "inverse", "theta_one_minus_theta")
     defs = []
     defs += block_defs("rq_inv", st.body, RQ_FREE, ["a", "b", "c", "discriminant", "root", "ret0", "ret1"],
@@ -935,7 +936,8 @@ def g_spline_quadratic(repo):
     src = Source(repo, "nflows/transforms/splines/quadratic.py")
     fn = src.func("quadratic_spline")
     store_census(fn, {"widths": 2, "unnorm_heights_exp": 2, "unnormalized_area": 1, "heights": 2, "bin_left_cdf": 3,
-                      "bin_locations": 3, "inputs": 2, "bin_idx": 2, "outputs": 6, "logabsdet": 4})
+                      "bin_locations": 3, "inputs": 2, "bin_idx": 2, "outputs": 6, "logabsdet": 4,
+                      "__bare_calls__": 0, "__raises__": 3, "__asserts__": 0})
     defs = domain_guard(fn, "quad")
     mid = _norm_denorm(fn, "quad", defs, src.consts)
     # mid: [bin search if, kernel if]
@@ -1013,7 +1015,8 @@ def g_spline_cubic(repo):
     src = Source(repo, "nflows/transforms/splines/cubic.py")
     fn = src.func("cubic_spline")
     store_census(fn, {"widths": 2, "cumwidths": 3, "heights": 2, "cumheights": 3, "slopes": 1, "derivatives": 2, "a": 2, "b": 2,
-                      "c": 2, "d": 1, "inputs": 2, "bin_idx": 2, "outputs": 7, "logabsdet": 4})
+                      "c": 2, "d": 1, "inputs": 2, "bin_idx": 2, "outputs": 7, "logabsdet": 4,
+                      "__bare_calls__": 0, "__raises__": 3, "__asserts__": 0})
     defs = domain_guard(fn, "cub")
     mid = _norm_denorm(fn, "cub", defs, src.consts)
     kern = [m for m in mid if any(t.id == "shifted_inputs" for s_ in m.orelse for t in _targets_of(s_))]
